@@ -88,7 +88,7 @@ def repo_hash():
 def build_go(target, pkg, tags='verif', race=False):
     out = os.path.join(BIN, target)
     if target.endswith('.test'):
-        cmd = [GO, 'test', '-c', '-tags', tags, '-o', out, './' + target[:-5]]
+        cmd = [GO, 'test', '-c', '-tags', tags, '-o', out, './' + target[:-5].replace('_race', '')]
         if race:
             cmd.insert(3, '-race')
         return run(cmd, cwd=HARNESS, env=GOENV, timeout=1500)
@@ -280,7 +280,8 @@ CODE_TEXT = {
     1003: 'tunnel ended after graceful shutdown was initiated', 1004: 'Stop returned before every Serve call had returned',
     1005: 'GracefulStop did not return although the RPCs in flight had finished', 1103: 'settings frame present/absent contrary to advertisement',
     1201: 'RPC routed to a different tunnel than the round-robin model picks', 1202: 'routing failed / succeeded contrary to the registry model',
-    1203: 'Ready() differs from the registry model', 1204: 'AllReverseTunnels() differs from the registry model', 1205: 'open/close callback not exactly once, in order', 1206: 'WaitForReady still blocked although a matching tunnel is registered',
+    1203: 'Ready() differs from the registry model', 1204: 'AllReverseTunnels() differs from the registry model', 1205: 'open/close callback not exactly once, in order', 1206: 'WaitForReady still blocked although a matching tunnel is registered', 1207: 'n RPCs over n keyed tunnels did not use each tunnel once',
+    1208: 'AllReverseTunnels returned the same tunnel twice',
     1301: 'settings not first / wrong stream id', 1302: 'frame before new_stream or stream ids not increasing', 1303: 'headers twice or after a message',
     1304: 'envelope before previous message finished', 1305: 'continuation without envelope', 1306: 'continuation exceeds announced size',
     1307: 'data frame larger than 16 KiB', 1308: 'frame after close_stream', 1309: 'second close_stream', 1310: 'request data after half-close',
@@ -442,6 +443,85 @@ def run_sim(family, seed, count, scenario_file=None, keep_trace=False):
 
 
 # ---------------------------------------------------------------------------
+# M3: free-running stress under the race detector
+# ---------------------------------------------------------------------------
+
+def run_stress(family, seed, count):
+    os.makedirs(os.path.join(VERIF, '.cache'), exist_ok=True)
+    key = sim_cache_key('stress:' + family, seed, count)
+    cpath = os.path.join(VERIF, '.cache', 'sim-%s.json' % key)
+    if os.path.exists(cpath):
+        try:
+            r = json.load(open(cpath))
+            r['cached'] = True
+            return r
+        except Exception:
+            pass
+    trace = os.path.join(WORK, 'stress-%s-%d-%d.trace' % (family, seed, os.getpid()))
+    racelog = trace + '.race'
+    env = dict(os.environ, SIM_OUT=trace, SIM_SEED=str(seed), SIM_COUNT=str(count), SIM_STRESS=family,
+               GORACE='halt_on_error=0 history_size=2')
+    env.pop('SIM_FAMILY', None)
+    env.pop('SIM_IN', None)
+    rc, o, dt = run([os.path.join(BIN, 'sim_race.test'), '-test.run', 'TestStress', '-test.timeout', '1500s'], env=env, timeout=1800)
+    res = {'family': 'stress:' + family, 'seed': seed, 'count': count, 'scenarios': 0, 'events': 0, 'failures': [], 'abnormal': [],
+           'go_s': round(dt, 1), 'error': None, 'cached': False, 'samples': [], 'actions': {'stress': count}, 'configs': {}, 'races': 0}
+    if not os.path.exists(trace):
+        res['error'] = 'stress run produced no trace (exit %d): %s' % (rc, o[-1500:])
+        return res
+    txt = open(trace, errors='replace').read()
+    if txt.count('\nS ') + (1 if txt.startswith('S ') else 0) > txt.count('\nX '):
+        last = [l for l in txt.split('\n') if l.startswith('S ')][-1].split(' ')[1]
+        why = 'panic' if 'panic: ' in o else 'crash'
+        tail = ' | '.join(x.strip() for x in o.split('\n') if 'grpctunnel' in x)[:1500]
+        open(trace, 'a').write('X %s %s %s\n' % (last, why, tail))
+    rc2, mo, dt2 = run([os.path.join(BIN, 'vmodel'), 'trace', trace], timeout=1800)
+    if rc2 != 0:
+        res['error'] = 'validator failed (exit %d): %s' % (rc2, mo[-1500:])
+        return res
+    for line in mo.splitlines():
+        f = line.split(' ')
+        if len(f) < 4 or f[0] != 'T':
+            continue
+        res['scenarios'] += 1
+        res['events'] += int(f[3])
+        if f[2] != 'ok':
+            res['abnormal'].append({'scenario': f[1], 'status': f[2], 'sig': 'stress'})
+        for tok in f[4:]:
+            m = re.match(r'(\d+)@(\d+)\((-?\d+),(-?\d+)\)', tok)
+            if m:
+                res['failures'].append({'scenario': f[1], 'code': int(m.group(1)), 'act': int(m.group(2)),
+                                        'a': int(m.group(3)), 'b': int(m.group(4)), 'sig': 'stress'})
+    for line in open(trace, errors='replace'):
+        if line.startswith('S '):
+            c = line.split(' ', 2)[2].strip()
+            res['configs'][c] = res['configs'].get(c, 0) + 1
+        elif line.startswith('X ') and ' hang' in line[:80]:
+            for a in res['abnormal']:
+                if a['scenario'] == line.split(' ')[1]:
+                    a['status'] = 'hang ' + line[:2500]
+    # data races reported by the detector that involve the library (races inside the harness alone do not count)
+    blocks = o.split('WARNING: DATA RACE')[1:]
+    for b in blocks:
+        b = b.split('==================')[0]
+        fns = sorted(set(re.findall(r'github.com/jhump/grpctunnel\.([\w\(\)\*\.]+)', b)))
+        if fns:
+            res['races'] += 1
+            res['abnormal'].append({'scenario': 'race', 'status': 'race ' + ', '.join(fns)[:400], 'sig': 'stress', 'report': b[:2500]})
+    res['samples'] = [l.strip()[:200] for l in txt.split('\n')[2:2000:400]][:3]
+    if res['failures'] or res['abnormal']:
+        keep = os.path.join(WORK, 'replay', 'trace-stress-%s-%d.trace' % (family, seed))
+        os.makedirs(os.path.dirname(keep), exist_ok=True)
+        os.replace(trace, keep)
+        res['trace'] = keep
+        open(keep + '.stderr', 'w').write(o[-200000:])
+    else:
+        os.remove(trace)
+    json.dump(res, open(cpath, 'w'))
+    return res
+
+
+# ---------------------------------------------------------------------------
 # known findings
 # ---------------------------------------------------------------------------
 
@@ -513,7 +593,10 @@ class Verdict:
                                       'scenario': f['scenario'], 'code': f['code'], 'meaning': CODE_TEXT.get(f['code'], '?'),
                                       'action': f['act'], 'a': f['a'], 'b': f['b'], 'seed': r['seed'], 'trace': r.get('trace')})
         for a in r['abnormal']:
-            rel = ['C09', 'C15'] if a['status'].startswith('panic') else \
+            if a['status'].startswith('race'):
+                rel = ['C15']
+            else:
+              rel = ['C09', 'C15'] if a['status'].startswith('panic') else \
                   ((['C03', 'C05', 'C15'] + (['C04'] if a.get('after_tunnel_end') else []) + (['C07'] if 'cancel' in a.get('sig', '') else [])) if a['status'].startswith('hang')
                    else (['C14'] + (['C04'] if a.get('after_tunnel_end') else [])))
             if self.pid not in rel:
